@@ -1,2 +1,25 @@
 pub mod commands;
 pub(crate) mod perform_swap;
+
+/// Verification hooks: thin public wrappers around private pure functions. Compiled only with
+/// `--features verif-hooks`; never part of a production build.
+#[cfg(feature = "verif-hooks")]
+pub mod verif_api {
+    use cosmwasm_std::{Decimal, StdResult, Uint128};
+
+    pub fn assert_max_slippage(
+        belief_price: Option<Decimal>,
+        max_slippage: Option<Decimal>,
+        offer_amount: Uint128,
+        return_amount: Uint128,
+        slippage_amount: Uint128,
+    ) -> StdResult<()> {
+        super::perform_swap::assert_max_slippage(
+            belief_price,
+            max_slippage,
+            offer_amount,
+            return_amount,
+            slippage_amount,
+        )
+    }
+}
